@@ -10,7 +10,7 @@ import copy
 import os
 import re
 
-from .. import core, gen_config
+from .. import core, gen_config, prng
 from ..engine import Verdict
 from .c06 import parse_stdout_sections
 
@@ -55,6 +55,19 @@ EMITTER_OPTS = [("emit_mode", '"Stdout"'), ("emit_mode", '"Json"'), ("emit_mode"
 
 
 def generate(rng, tier):
+    nr = prng.Rng(prng.mix(rng.seed, "c14-flag-and-config"))  # a side stream: the main stream stays what it was
+    if nr.chance(4):
+        # lane F: one key given both through its dedicated flag and through --config, with different values.  Which of
+        # the two wins is not part of the property; that the defaults of the unset options follow the value that ends
+        # up in force is
+        key = nr.choice(["edition", "style_edition"])
+        fv, iv = nr.sample(["2015", "2018", "2021", "2024"], 2)
+        d = nr.choice(["p", "p/a"])
+        files = {os.path.join(d, "probe0.rs"): "use x::{a10, a2, A1};\n" + gen_config.PROBE, "home/.keep": ""}
+        if nr.chance(40):
+            files[os.path.join(d, nr.choice(["rustfmt.toml", ".rustfmt.toml"]))] = nr.choice(["max_width = 80\n", "tab_spaces = 2\n", 'version = "One"\n', 'version = "Two"\n'])
+        return {"lane": "flagboth", "world": {"files": files}, "probe": os.path.join(d, "probe0.rs"), "key": key, "flag_value": fv,
+                "config_value": iv, "config_first": nr.chance(50), "cwd": nr.choice([".", d]), "hashseed": nr.below(1 << 32)}
     if rng.chance(4):
         # lane E: an option that steers the emitter, in the nearest rustfmt.toml versus the same file named with
         # --config-path: where the result goes (standard output, the file, a backup) must be the same
@@ -322,9 +335,50 @@ def _lane_emitter(case):
     return v
 
 
+def _lane_flagboth(case):
+    v = Verdict()
+    key, fv, iv = case["key"], case["flag_value"], case["config_value"]
+    flag = "--" + key.replace("_", "-")
+    probe = os.path.relpath(case["probe"], case["cwd"])
+    with core.Scratch() as sc:
+        sc.fresh_world(case["world"])
+
+        def run(args):
+            r = core.run_inv(sc, {"argv": ["--color", "never"] + args + [probe], "cwd": case["cwd"], "env": {"HOME": "$ROOT/home"}, "hashseed": case["hashseed"]})
+            v.account(r)
+            ab = core.abnormal(r)
+            if ab:
+                v.add("C14:flag-and-config-same-key|abnormal|%s" % ab, "argv=%s status=%s" % (args, r.status()))
+            return r
+        both = ([ "--config", "%s=%s" % (key, iv), flag, fv] if case["config_first"] else [flag, fv, "--config", "%s=%s" % (key, iv)])
+        rb = run(both + ["--print-config", "current"])
+        if rb.exit != 0:
+            v.probe("flagboth-rejected")
+            return v
+        eff = parse_dump(core.text_of(rb.stdout)).get(key, "").strip('"')
+        det = "%s %s together with --config %s=%s (effective %s = %r)" % (flag, fv, key, iv, key, eff)
+        if eff not in (fv, iv):
+            v.add("C14:flag-and-config-same-key|value-from-nowhere", det)
+            return v
+        ra = run([flag, eff, "--print-config", "current"])
+        if ra.exit == 0 and ra.stdout != rb.stdout:
+            da, db = parse_dump(core.text_of(ra.stdout)), parse_dump(core.text_of(rb.stdout))
+            diff = sorted(k for k in set(da) | set(db) if da.get(k) != db.get(k))
+            v.add("C14:flag-and-config-same-key|effective-config", "%s: the printed configuration differs from the one for %s %s alone in %s" % (det, flag, eff, diff[:6]))
+        tb = run(both + ["--emit", "stdout"])
+        ta = run([flag, eff, "--emit", "stdout"])
+        if tb.exit == 0 and ta.exit == 0 and ta.stdout != tb.stdout:
+            v.add("C14:flag-and-config-same-key|text", "%s: the source is formatted differently from %s %s alone" % (det, flag, eff))
+        v.probe("flag-and-config:" + key)
+        v.sample = {"lane": "flagboth", "argv": both, "effective": eff}
+    return v
+
+
 def execute(case):
     if case.get("lane") == "emitter":
         return _lane_emitter(case)
+    if case.get("lane") == "flagboth":
+        return _lane_flagboth(case)
     v = Verdict()
     probes = case["probes"]
     cli = case["cli"]
@@ -536,7 +590,7 @@ def execute(case):
 
 
 def shrinks(case):
-    if case.get("lane") == "emitter":
+    if case.get("lane") in ("emitter", "flagboth"):
         return
     cli = case["cli"]
     for k in list(cli["config"]):
